@@ -66,6 +66,10 @@ Threshold(e) ==
      e.entries[k].status = "renamed" =>
         \E t \in DOMAIN e.tm : /\ e.tm[t].old = e.entries[k].old /\ e.tm[t].new = e.entries[k].new
                                /\ ~e.tm[t].byname /\ e.tm[t].sim >= 600000
+        \* ... and the similarity MEASURED on the two functions (not the figure the report prints) reaches
+        \* the threshold; ge is the comparison of the real float with 0.6, taken by the driver
+        /\ \A u \in DOMAIN e.sims :
+              (e.sims[u].a = e.entries[k].old /\ e.sims[u].b = e.entries[k].new) => e.sims[u].ge
 
 Similarity(e) ==
   \A t \in DOMAIN e.sims :
